@@ -103,6 +103,13 @@ def run(ctx):
                           'sequences; all strings up to length %d over {-,`,\',a,blank} between two letters; random longer strings; '
                           'excluded: special sequence on an otherwise blank line (C05); non-trivial = contains a special sequence'
                           % (ctx.scale(2, 3), len(ALPHA), ctx.scale(4, 6)))
+    # plain prose stays a fixed point under every option that does not concern it (--no-specials, languages, packages)
+    rng = ctx.rng
+    for _ in range(ctx.scale(300, 5000)):
+        t = ''.join(rng.choice(INERT + ['a', 'b', ' ', 'c', 'x', 'x', 'LT', 'S', 'K', 'I', 'P', ' x ', '\n']) for _ in range(rng.randint(1, 60)))
+        if not excluded(t):
+            cases.append({'src': t, 'opts': {'pack': rng.choice(['*', '']), 'nosp': rng.random() < 0.7, 'lang': rng.choice(['', 'en', 'ru']),
+                                             'dcls': rng.choice(['', 'article'])}, 'multi': False, 'kind': 'prose-opts'})
     results = ctx.pmap(t2t.run_case, cases)
     for c, r in zip(cases, results):
         ctx.case(c['src'], nontrivial=any(k in c['src'] for k in DOCUMENTED))
